@@ -1,5 +1,6 @@
 from yowsup.layers.network.dispatcher.dispatcher import YowConnectionDispatcher
 import asyncore
+import errno
 import logging
 import socket
 import threading
@@ -36,7 +37,13 @@ class AsyncoreConnectionDispatcher(YowConnectionDispatcher, asyncore.dispatcher_
         self.connectionCallbacks.onConnecting()
         self.create_socket(socket.AF_INET, socket.SOCK_STREAM)
         asyncore.dispatcher_with_send.connect(self, host)
-        asyncore.loop(timeout=1, map=self._socket_map)
+        try:
+            asyncore.loop(timeout=1, map=self._socket_map)
+        except OSError as e:
+            # disconnect() from another thread closed the socket between the loop's bookkeeping and its select():
+            # the connection is down and has been announced as such, nothing to report to the caller of connect()
+            if e.errno != errno.EBADF or self._socket_map:
+                raise
 
     def handle_connect(self):
         logger.debug("handle_connect")
